@@ -102,6 +102,7 @@ func (sc *StateCache) commit(bc *BlockCache) {
 	defer bc.mu.Unlock()
 	ts := time.Now()
 	for key, v := range bc.cache {
+		verifYield("commit.cache.Get")
 		bvsi, ok := sc.cache.Get(key)
 		if !ok {
 			var err error
@@ -116,11 +117,14 @@ func (sc *StateCache) commit(bc *BlockCache) {
 		if v.data != nil {
 			v.data = v.data.Clone()
 		}
+		verifYield("commit.bvs.Add")
 		bvs.Add(bc.blockHash, v)
 
+		verifYield("commit.cache.Add")
 		sc.cache.Add(key, bvs)
 	}
 
+	verifYield("commit.link")
 	sc.commitRound(bc.round, bc.prevBlockHash, bc.blockHash)
 
 	sc.hits += bc.hits
@@ -142,6 +146,7 @@ func (sc *StateCache) Get(key, blockHash string) (Value, bool) {
 	// sc.mu.RLock()
 	// defer sc.mu.RUnlock()
 
+	verifYield("get.cache.Get")
 	blockValues, ok := sc.cache.Get(key)
 	if !ok {
 		logging.Logger.Debug("state cache get - key not found", zap.String("key", key))
@@ -149,6 +154,7 @@ func (sc *StateCache) Get(key, blockHash string) (Value, bool) {
 	}
 
 	bvs := blockValues.(*lru.Cache)
+	verifYield("get.bvs.Get")
 	vv, ok := bvs.Get(blockHash)
 	if ok {
 		v := vv.(valueNode)
@@ -167,6 +173,7 @@ func (sc *StateCache) Get(key, blockHash string) (Value, bool) {
 	for {
 		count++
 		// get previous block hash
+		verifYield("get.link")
 		prevHash, ok := sc.hashCache.Get(blockHash)
 		if !ok {
 			// could not find previous hash
@@ -175,6 +182,7 @@ func (sc *StateCache) Get(key, blockHash string) (Value, bool) {
 		}
 
 		blockHash = prevHash.(string)
+		verifYield("get.bvs.Get.prev")
 		vv, ok = bvs.Get(blockHash)
 		if !ok {
 			// stop if the value is not found in previous maxHisDepth rounds
@@ -197,6 +205,7 @@ func (sc *StateCache) Get(key, blockHash string) (Value, bool) {
 
 		bvsi.Add(oldBlockHash, v)
 
+		verifYield("get.memo")
 		sc.cache.Add(key, bvsi)
 		// logging.Logger.Debug("state cache - migrate from previous block",
 		// 	zap.String("key", key),
